@@ -53,6 +53,20 @@ class CachedInputSplit : public InputSplit {
   }
   // destructor
   virtual ~CachedInputSplit(void) {
+    // the cache file is still being written: finish the pass (as BeforeFirst does),
+    // otherwise a later object would take the truncated file for a complete cache
+    if (iter_preproc_ != NULL) {
+      try {
+        if (tmp_chunk_ != NULL) {
+          iter_preproc_->Recycle(&tmp_chunk_);
+        }
+        while (iter_preproc_->Next(&tmp_chunk_)) {
+          iter_preproc_->Recycle(&tmp_chunk_);
+        }
+      } catch (const dmlc::Error &) {
+        // the source failed: nothing more can be cached; destructors do not throw
+      }
+    }
     // NOTE delete can handle NULL ptr
     // deletion order matters
     delete iter_preproc_;
